@@ -136,6 +136,25 @@ def case_variant(rng, s):
     return s
 
 
+INT = "\x01int:"  # how a non-str (int) identity value is written for the model and in observables
+
+
+def lookalikes(v):
+    """strings that resemble `v` without being it: case, surrounding white space, Unicode normalisation /
+    homoglyph, prefix / suffix"""
+    import unicodedata
+
+    out = [v.upper(), v.lower(), v.swapcase(), v.capitalize(), v + " ", " " + v, "\t" + v + "\n", v[:-1], v + "x",
+           "x" + v, v[1:], unicodedata.normalize("NFD", v), unicodedata.normalize("NFKC", v),
+           v.replace("a", "\u0430").replace("e", "\u0435").replace("o", "\u043e"),  # Cyrillic homoglyphs
+           v.replace("f", "\uff46"), v + "\u200b"]
+    res = []
+    for x in out:
+        if x != v and x not in res:
+            res.append(x)
+    return res
+
+
 def gen_value(rng, attr):
     if attr in ("pairwise-id", "subject-id"):
         return rng.choice(["abc123@idp.example", "u1@idp.example"])
@@ -150,6 +169,8 @@ def gen_identity(rng, prefer):
         k = case_variant(rng, base) if rng.random() < 0.25 else base
         if rng.random() < 0.01:
             k = ""
+        if rng.random() < 0.05:
+            k = rng.choice(lookalikes(base))  # resembles a known attribute name without being it
         if k in seen:
             continue
         seen.add(k)
@@ -160,6 +181,8 @@ def gen_identity(rng, prefer):
             vals = [gen_value(rng, base) for _ in range(m)]
             if vals and rng.random() < 0.2:
                 vals.append(vals[0])
+            if vals and rng.random() < 0.12:
+                vals.append(rng.choice(lookalikes(vals[0])))  # two values that resemble each other
             v = {"l": vals}
         out.append([k, v])
     return out
@@ -189,6 +212,10 @@ def gen_ra(rng, local, identity, direct, required=False):
     else:
         ra = {"name": case_variant(rng, local), "name_format": rng.choice([None, None, UNSPEC, URI]),
               "friendly_name": rng.choice([None, None, local, ""])}
+    if rng.random() < 0.06:
+        ra["friendly_name"] = rng.choice(lookalikes(local))
+    if rng.random() < 0.04 and ra.get("name_format"):
+        ra["name_format"] = rng.choice([ra["name_format"].upper(), ra["name_format"] + "x", ra["name_format"][:-1]])
     if direct and rng.random() < 0.15:
         ra["name_format"] = None
     if required and not ra.get("friendly_name") and rng.random() < 0.7:
@@ -206,7 +233,11 @@ def gen_ra(rng, local, identity, direct, required=False):
                 if scalar and held and len(held[0]) > 2 and rng.random() < 0.5:
                     held.append(held[0][: max(1, len(held[0]) // 2)])  # a substring of the user's value
         pool = held + held + [rng.choice(VALUES), "nope"]
+        strs = [h for h in held if isinstance(h, str) and h]
+        if strs:  # look-alikes of what the user holds
+            pool += [rng.choice(lookalikes(rng.choice(strs))) for _ in range(2)]
         vals = [rng.choice(pool) for _ in range(rng.choice([1, 1, 2, 3]))]
+        vals = [v if isinstance(v, str) else str(v) for v in vals]
         if rng.random() < 0.15:
             vals.append(vals[0])
         if rng.random() < 0.05:
@@ -296,6 +327,8 @@ def gen_section(rng, identity, use_custom):
         seen = set()
         for k in keys[: rng.choice([0, 1, 2, 3, 5])]:
             k = case_variant(rng, k) if rng.random() < 0.4 else k
+            if k and rng.random() < 0.06:
+                k = rng.choice(lookalikes(k))
             if k in seen:
                 continue
             seen.add(k)
@@ -306,6 +339,12 @@ def gen_section(rng, identity, use_custom):
                 pats = []
             else:
                 pats = [rng.choice(PATTERNS) for _ in range(rng.choice([1, 1, 2, 3]))]
+                held = [x for kk, v in identity if kk.lower() == k.lower()
+                        for x in ([v["s"]] if "s" in v else v["l"]) if isinstance(x, str) and x]
+                if held and rng.random() < 0.5:
+                    # literal patterns made of a held value and of its look-alikes
+                    h = rng.choice(held)
+                    pats.append(re.escape(rng.choice([h, h] + lookalikes(h))) + rng.choice(["", "$"]))
             ar.append([k, pats])
         sec["ar"] = ar
     c = rng.random()
@@ -350,9 +389,12 @@ def gen_sp(rng, eid, identity, prefer):
         cats = rng.sample(pool, rng.choice([1, 1, 2, 3]))
     if rng.random() < 0.3:
         cats += rng.sample(CC, rng.choice([1, 2, 3]))
-    return {"entity_id": eid, "ra": rng.choice([None, None, RA1, RA2]), "cats": cats,
-            "subj": rng.choice([None, None, None, None, "any", "pairwise-id", "subject-id", "none", "bogus"]),
-            "ras": gen_ras(rng, identity, prefer), "split": rng.random() < 0.25}
+    sp = {"entity_id": eid, "ra": rng.choice([None, None, RA1, RA2]), "cats": cats,
+          "subj": rng.choice([None, None, None, None, "any", "pairwise-id", "subject-id", "none", "bogus"]),
+          "ras": gen_ras(rng, identity, prefer), "split": rng.random() < 0.35}
+    if rng.random() < 0.7:
+        sp["layout"] = {"order": [rng.randrange(5) for _ in range(5)], "ea": rng.randrange(4), "other": rng.random() < 0.5}
+    return sp
 
 
 def category_attrs(rng):
@@ -749,7 +791,119 @@ def gen_histories(rng, n_scen):
         yield {"op": "sequence", "policy": policy, "sps": sps, "custom": custom, "steps": steps}
 
 
+def _regex_keys(policy):
+    keys = set()
+    for _, sec in policy or []:
+        for k, pats in (sec or {}).get("ar") or []:
+            if pats:
+                keys.add(k.lower())
+    return keys
+
+
+def _inject_int(rng, case):
+    """type look-alike: the user holds the int 1 beside / instead of the str "1" (the code accepts non-str
+    values); only for attributes no regular expression is applied to (re.match raises TypeError on an int)"""
+    cands = [i for i, (k, v) in enumerate(case["identity"]) if "l" in v and k.lower() not in _regex_keys(case["policy"])]
+    if not cands:
+        return
+    i = rng.choice(cands)
+    ident = copy.deepcopy(case["identity"])
+    ident[i][1]["l"] = rng.choice([[1], [1, "1"], ["1", 1, 1], [10, "1"]]) + ident[i][1]["l"][:1]
+    case["identity"] = ident
+    if case["op"] == "filter":
+        case["opt"] = list(case["opt"]) + [{"name": ident[i][0], "name_format": None, "friendly_name": ident[i][0],
+                                            "values": [rng.choice(["1", "10", "1 "])], "required": False}]
+
+
+def lookalike_sweep_cases():
+    """deterministic: wherever the code compares a value or a name, every look-alike of it once"""
+    def sp(ras=()):
+        return {"entity_id": SP1, "ra": None, "cats": [], "subj": None, "ras": list(ras), "split": False}
+
+    sec = {"ar": None, "ar_key": False, "fomr": False, "ec": [], "ec_key": False, "lifetime": True, "nonempty": True}
+    base = {"policy": [["default", sec]], "sps": [sp()], "sp": SP1, "custom": {}, "has_mds": True}
+    held_values = ["staff", "Jeter", "a@b.c", "member@example.org", "\u00fcn\u00ef"]
+    # requested AttributeValue vs held value (list- and str-valued), optional and required
+    for v in held_values:
+        for t in lookalikes(v):
+            for val in ({"l": [v]}, {"s": v}):
+                for required in (False, True):
+                    ra = {"name": "eduPersonAffiliation", "name_format": None, "friendly_name": "eduPersonAffiliation",
+                          "values": [t], "required": required}
+                    yield dict(base, op="filter", identity=[["eduPersonAffiliation", val]],
+                               req=[ra] if required else [], opt=[] if required else [ra])
+    # the same through requester metadata (the parser strips surrounding white space there: model input stripped too)
+    for v in held_values[:3]:
+        for t in lookalikes(v):
+            ra = {"name": OID["eduPersonAffiliation"], "name_format": URI, "friendly_name": "eduPersonAffiliation",
+                  "values": [t, "nope"], "required": False}
+            yield dict(base, op="restrict", identity=[["eduPersonAffiliation", {"l": [v]}]], sps=[sp([ra])])
+    # attribute NAME look-alikes: identity key vs RequestedAttribute (FriendlyName / Name) and vs restriction key
+    for name in ("mail", "eduPersonAffiliation"):
+        for t in lookalikes(name):
+            ident = [[t, {"l": ["v"]}]]
+            ra = {"name": OID[name], "name_format": URI, "friendly_name": name, "values": [], "required": False}
+            yield dict(base, op="filter", identity=ident, req=[], opt=[ra])
+            yield dict(base, op="filter", identity=[[name, {"l": ["v"]}]], req=[],
+                       opt=[dict(ra, name="urn:x-c10:unknown:" + name, friendly_name=t)])
+            yield dict(base, op="filter", identity=[[name, {"l": ["v"]}]], req=[], opt=[dict(ra, name=t, name_format=None, friendly_name=None)])
+            yield dict(base, op="filter", identity=ident, req=[], opt=[],
+                       policy=[["default", dict(sec, ar=[[name, None]], ar_key=True)]])
+    # NameFormat look-alikes: the attribute map of the format is not consulted then
+    for nf in (URI.upper(), URI + " ", URI[:-1], BASIC):
+        ra = {"name": OID["mail"], "name_format": nf, "friendly_name": None, "values": [], "required": False}
+        yield dict(base, op="filter", identity=[["mail", {"l": ["v"]}]], req=[], opt=[ra])
+    # restriction literals vs held values: one policy, one attribute per (value, look-alike) pair
+    pairs = [(v, t) for v in held_values for t in [v] + lookalikes(v)]
+    names = ["x-la-%d" % i for i in range(len(pairs))]
+    for suffix in ("", "$"):
+        ar = [[n, [re.escape(t) + suffix]] for n, (v, t) in zip(names, pairs)]
+        yield dict(base, op="filter", identity=[[n, {"l": [v]}] for n, (v, t) in zip(names, pairs)], req=[], opt=[],
+                   policy=[["default", dict(sec, ar=ar, ar_key=True)]])
+    # type look-alike: int 1 vs str "1"
+    for held in ([1], ["1"], [1, "1"], [True]):
+        for want in ("1", "True"):
+            ra = {"name": "x-num", "name_format": None, "friendly_name": "x-num", "values": [want], "required": False}
+            yield dict(base, op="filter", identity=[["x-num", {"l": held}]], req=[], opt=[ra])
+
+
+def layout_sweep_cases():
+    """deterministic: every order of the md:Extensions children (RegistrationInfo, EntityAttributes, a foreign
+    element) x every shape of the EntityAttributes containers; the same attribute required by one
+    AttributeConsumingService and optional in another, both orders"""
+    sec = {"ar": None, "ar_key": False, "fomr": True, "ec": [], "ec_key": False, "lifetime": True, "nonempty": True}
+    rs = "http://refeds.org/category/research-and-scholarship"
+    ident = [["mail", {"l": ["a@b.c"]}], ["sn", {"l": ["Jeter"]}], ["title", {"l": ["x"]}]]
+    # A: the registration authority's section (mail only, R&S in effect) vs an open default section
+    pol_a = [[RA1, dict(sec, ar=[["mail", None]], ar_key=True, ec=["refeds"], ec_key=True)], ["default", dict(sec, fomr=False)]]
+    # B: the subject-id requirement makes the release fail (the user holds no pairwise-id); strict section via RA
+    pol_b = [[RA1, dict(sec, fomr=True)], ["default", dict(sec, fomr=False)]]
+    orders = [[0, 1, 2, 3], [0, 2, 1, 3], [1, 0, 2, 3], [1, 2, 0, 3], [2, 0, 1, 3], [2, 1, 0, 3], [3, 2, 1, 0], [1, 3, 0, 2]]
+    for order in orders:
+        for ea in range(4):
+            lay = {"order": order, "ea": ea, "other": True}
+            spa = {"entity_id": SP1, "ra": RA1, "cats": [rs, "urn:c10:cat:a"], "subj": None, "ras": [], "split": False, "layout": lay}
+            yield {"op": "restrict", "identity": ident, "policy": pol_a, "sps": [spa], "sp": SP1, "custom": {}, "has_mds": True}
+            spb = dict(spa, cats=["urn:c10:cat:a", "urn:c10:cat:b"], subj="pairwise-id",
+                       ras=_req_ras(["mail"], True))
+            yield {"op": "restrict", "identity": ident, "policy": pol_b, "sps": [spb], "sp": SP1, "custom": {}, "has_mds": True}
+    pol = [["default", dict(sec, fomr=True)]]
+    for first_required in (True, False):
+        for op in ("restrict", "authn_response"):
+            ras = _req_ras(["mail"], first_required) + _req_ras(["title"], False) + _req_ras(["mail"], not first_required)
+            ras[0]["values"], ras[2]["values"] = ["a@b.c"], ["nope"]
+            spc = {"entity_id": SP1, "ra": None, "cats": [], "subj": None, "ras": ras, "split": True}
+            c = {"op": op, "identity": ident, "policy": pol, "sps": [spc], "sp": SP1, "custom": {}, "has_mds": True}
+            if op == "authn_response":
+                c["best_effort"] = None
+            yield c
+
+
 def gen_cases(rng, tier):
+    for c in lookalike_sweep_cases():
+        yield c
+    for c in layout_sweep_cases():
+        yield c
     for c in sequence_sweep_cases():
         yield c
     for c in history_sweep_cases():
@@ -758,7 +912,7 @@ def gen_cases(rng, tier):
         yield c
     for c in gen_sequences(rng, 110 if tier == "quick" else 900):
         yield c
-    n_scen = 500 if tier == "quick" else 2800
+    n_scen = 430 if tier == "quick" else 2800
     per = 7 if tier == "quick" else 9
     for c in table_sweep_cases():
         yield c
@@ -787,6 +941,8 @@ def gen_cases(rng, tier):
                 case["req"] = [r for r in ras if r["required"]]
                 case["opt"] = [r for r in ras if not r["required"]]
                 case["has_mds"] = rng.random() < 0.85
+            if op in ("filter", "restrict", "apply_policy") and rng.random() < 0.08:
+                _inject_int(rng, case)
             if op == "authn_response":
                 if rng.random() < 0.3:
                     case["op"] = "setup_assertion"  # the anchored mechanism itself, with its best_effort argument
@@ -799,22 +955,51 @@ def gen_cases(rng, tier):
 # ------------------------------------------------------------------ scenario construction
 
 
+DIGEST_EXT = ('<alg:DigestMethod xmlns:alg="urn:oasis:names:tc:SAML:metadata:algsupport" '
+              'Algorithm="http://www.w3.org/2001/04/xmlenc#sha256"/>')
+
+
 def _ext_xml(sp):
-    out = ""
+    """children of md:Extensions.  `layout` varies only the SHAPE (order of the children, number of
+    EntityAttributes containers, a foreign child, the category attribute split in two): what the requester says
+    - registration authority `ra`, categories `cats`, subject-id requirement `subj` - stays what the case records,
+    and that record (not the store) is what the model is given."""
+    lay = sp.get("layout") or {}
+    parts = []
     if sp.get("ra"):
-        out += ('<mdrpi:RegistrationInfo xmlns:mdrpi="urn:oasis:names:tc:SAML:metadata:rpi" '
-                'registrationAuthority="%s"/>' % S.xesc(sp["ra"]))
-    attrs = ""
-    if sp.get("cats"):
-        attrs += ('<saml:Attribute Name="http://macedir.org/entity-category" NameFormat="%s">%s</saml:Attribute>'
-                  % (URI, "".join("<saml:AttributeValue>%s</saml:AttributeValue>" % S.xesc(c) for c in sp["cats"])))
+        parts.append('<mdrpi:RegistrationInfo xmlns:mdrpi="urn:oasis:names:tc:SAML:metadata:rpi" '
+                     'registrationAuthority="%s"/>' % S.xesc(sp["ra"]))
+
+    def cat_attr(cs):
+        if not cs:
+            return ""
+        return ('<saml:Attribute Name="http://macedir.org/entity-category" NameFormat="%s">%s</saml:Attribute>'
+                % (URI, "".join("<saml:AttributeValue>%s</saml:AttributeValue>" % S.xesc(c) for c in cs)))
+
+    subj = ""
     if sp.get("subj"):
-        attrs += ('<saml:Attribute Name="urn:oasis:names:tc:SAML:profiles:subject-id:req" NameFormat="%s">'
-                  "<saml:AttributeValue>%s</saml:AttributeValue></saml:Attribute>" % (URI, S.xesc(sp["subj"])))
-    if attrs:
-        out += ('<mdattr:EntityAttributes xmlns:mdattr="urn:oasis:names:tc:SAML:metadata:attribute" '
-                'xmlns:saml="urn:oasis:names:tc:SAML:2.0:assertion">%s</mdattr:EntityAttributes>' % attrs)
-    return out
+        subj = ('<saml:Attribute Name="urn:oasis:names:tc:SAML:profiles:subject-id:req" NameFormat="%s">'
+                "<saml:AttributeValue>%s</saml:AttributeValue></saml:Attribute>" % (URI, S.xesc(sp["subj"])))
+    cats = list(sp.get("cats") or [])
+    mode = lay.get("ea", 0)
+    half = len(cats) // 2
+    if mode == 1:
+        containers = [cat_attr(cats), subj]
+    elif mode == 2 and len(cats) >= 2:
+        containers = [cat_attr(cats[:half]) + subj, cat_attr(cats[half:])]
+    elif mode == 3 and len(cats) >= 2:
+        containers = [cat_attr(cats[:half]) + subj + cat_attr(cats[half:])]
+    else:
+        containers = [cat_attr(cats) + subj]
+    for c in containers:
+        if c:
+            parts.append('<mdattr:EntityAttributes xmlns:mdattr="urn:oasis:names:tc:SAML:metadata:attribute" '
+                         'xmlns:saml="urn:oasis:names:tc:SAML:2.0:assertion">%s</mdattr:EntityAttributes>' % c)
+    if lay.get("other"):
+        parts.append(DIGEST_EXT)
+    order = lay.get("order") or []
+    idx = sorted(range(len(parts)), key=lambda i: (order[i] if i < len(order) else 99, i))
+    return "".join(parts[i] for i in idx)
 
 
 def _sp_entity(sp):
@@ -884,13 +1069,17 @@ def _py_identity(identity):
     return {k: (v["s"] if "s" in v else list(v["l"])) for k, v in identity}
 
 
+def has_ints(identity):
+    return any("l" in v and any(not isinstance(x, str) for x in v["l"]) for _, v in identity)
+
+
 def _canon_ava(d):
     out = []
     for k, v in d.items():
         if isinstance(v, str):
             out.append([k, {"s": v}])
         else:
-            out.append([k, {"l": [x for x in v]}])
+            out.append([k, {"l": [x if isinstance(x, str) else INT + str(x) for x in v]}])
     return out
 
 
@@ -932,7 +1121,7 @@ def _env(case):
             idvals.add(v["s"])
             scalars.add(v["s"])
         else:
-            idvals.update(v["l"])
+            idvals.update(x for x in v["l"] if isinstance(x, str))
     names = set()
     reqvals = set()
     for ra in ras:
@@ -1140,7 +1329,8 @@ def _norm_ava(ava, wire):
         if "s" in v and not wire:
             d[k] = ("s", v["s"])
         else:
-            d[k] = ("l", tuple(sorted([v["s"]] if "s" in v else v["l"])))
+            d[k] = ("l", tuple(sorted(x if isinstance(x, str) else INT + str(x)
+                                      for x in ([v["s"]] if "s" in v else v["l"]))))
     return d
 
 
@@ -1357,6 +1547,8 @@ def neighbours(case, rng):
                     yield c
         return
     for op in ("restrict", "apply_policy", "authn_response", "attribute_response", "setup_assertion"):
+        if has_ints(case["identity"]) and op not in ("restrict", "apply_policy"):
+            continue  # non-str values are compared at Policy level only (on the wire 1 and "1" look the same)
         if op != case["op"] and case["op"] != "filter":
             c = copy.deepcopy(case)
             c["op"] = op
